@@ -217,6 +217,17 @@ func cvConvert(toks []string, withStart bool, shared *trackaddict.Session) (stri
 				other.LapTimer(sess) //nolint: errcheck
 			}
 		}
+		if cvField(toks, "W") == "3" && cvField(toks, "PR") != "nil" {
+			// the session has been converted before with ANOTHER predictor: the values it left in the
+			// rows without fresh readings are recomputed from the fresh ones, which nothing touches
+			other, err := convert.NewTrackAddict(convert.PredictorOpt(&interp.PiecewiseConstant{}))
+			if cvField(toks, "PR") == "pc" {
+				other, err = convert.NewTrackAddict(convert.PredictorOpt(&interp.PiecewiseLinear{}))
+			}
+			if err == nil {
+				other.LapTimer(sess) //nolint: errcheck
+			}
+		}
 		db, err := conv.LapTimer(sess)
 		if err != nil {
 			return err
@@ -594,7 +605,7 @@ func genCV(cfg *config, r *rng, i int, s *sink) string {
 	if sd != "-" && r.chance(1, 4) {
 		sl = fmt.Sprint(pick(r, []int{7200, -14400, 19800, 50400, -43200}))
 	}
-	warm := pick(r, []int{0, 0, 0, 1, 1, 2})
+	warm := pick(r, []int{0, 0, 0, 1, 1, 2, 3})
 	share := b01(r.chance(1, 3))
 	s.count(fmt.Sprintf("cv.warm.%d", warm))
 	s.count("cv.op." + op)
